@@ -101,33 +101,44 @@ class SolveLoop:
         if not params:
             raise AnalysisError(f"{cls.name}.solve has no iteration-limit parameter")
         self.limit_param = params[0]
-        self.header = self._find_loop()
-        self.members = self.cfg.loop_members(self.header)
         self._step_cache: dict[int, bool] = {}
         self._save_cache: dict[int, bool] = {}
+        self.header = self._find_loop()
+        self.members = self.cfg.loop_members(self.header)
 
     # ---------------------------------------------------------------- anchors
     def _find_loop(self) -> Node:
+        """The top-level loop of solve whose body runs the step.  Its trip count is judged
+        separately (`bound_ok`): `for _ in range(<limit parameter>)` or an equivalent range."""
+        self._step_cache = {}
+        self._save_cache = {}
+        loops = [n for n in self.cfg.nodes if n.kind == "iter" and n.depth == 0]
         cands = []
-        for n in self.cfg.nodes:
-            if n.kind == "iter" and isinstance(n.ast, ast.For):
-                it = n.ast.iter
-                if (
-                    isinstance(it, ast.Call)
-                    and isinstance(it.func, ast.Name)
-                    and it.func.id == "range"
-                    and len(it.args) == 1
-                    and isinstance(it.args[0], ast.Name)
-                    and it.args[0].id == self.limit_param
-                ):
-                    cands.append(n)
-        top = [n for n in cands if n.depth == 0]
-        if len(top) != 1:
+        for h in loops:
+            members = self.cfg.loop_members(h)
+            if any(self.reaches_step(self.cfg.nodes[i]) for i in members):
+                cands.append(h)
+        if len(cands) != 1:
             raise AnalysisError(
-                f"anchor vanished: {self.cls.name}.solve has {len(top)} top-level "
-                f"`for _ in range({self.limit_param})` loops (expected 1)"
+                f"anchor vanished: {self.cls.name}.solve has {len(cands)} top-level loops that run "
+                f"_iteration_step (expected 1)"
             )
-        return top[0]
+        h = cands[0]
+        if not isinstance(h.ast, ast.For):
+            raise AnalysisError(f"{self.cls.name}.solve: the sweep loop is a `while` loop - trip count not analysable")
+        return h
+
+    def bound_ok(self):
+        """(ok, message): the loop performs exactly <limit parameter> iterations unless it breaks."""
+        it = self.header.ast.iter
+        lim = self.limit_param
+        src = ast.unparse(it)
+        if isinstance(it, ast.Call) and isinstance(it.func, ast.Name) and it.func.id == "range" and not it.keywords:
+            a = [ast.unparse(x) for x in it.args]
+            if a in ([lim], ["0", lim], ["1", f"{lim} + 1"], ["1", f"1 + {lim}"]):
+                return True, f"for ... in {src}: at most {lim} further sweeps"
+        return False, (f"the sweep loop runs over `{src}`, not over range({lim}): solve({lim}) does not perform "
+                       f"up to {lim} FURTHER sweeps (e.g. a bound that involves the running counter breaks solve(k1); solve(k2) == solve(k1+k2))")
 
     # ------------------------------------------------------- node predicates
     def reaches_step(self, node: Node) -> bool:
